@@ -23,9 +23,14 @@ def kvNat? (key : String) (ts : List String) : Option Nat :=
     | [k, v] => if k = key then v.toNat? else none
     | _ => none
 
-/-- `hc-round PATTERN` → `pings=N ok|panic|starved` -/
+/-- `hc-round PATTERN [slow=MS]` → `pings=N ok|panic|starved`; the optional second argument makes every failing ping of
+    the real run take MS ms with `healthCheck.timeout = MS` – the model of `performHealthCheck` has no ping duration and no
+    use of that option, so the prediction is the same -/
 def hHcRound (args : List String) (real : Option String) : Option Out := do
-  let [ps] := args | none
+  let ps ← match args with
+    | [ps] => some ps
+    | [ps, sl] => if sl.startsWith "slow=" then some ps else none
+    | _ => none
   let p ← pattern? ps
   let o := round p
   let model := s!"pings={o.pings} {showRes o.res}"
